@@ -107,6 +107,10 @@ func c18Run(c c18Case) (v *verdict, labels []string, killedAlive int) {
 		if alive {
 			killedAlive++
 		}
+		// what was going on: the linker sources are unpacked into garble's shared temp dir
+		if m, _ := filepath.Glob(filepath.Join(box.Tmp, "garble-shared*", "linker-src")); len(m) > 0 {
+			labels = append(labels, "observed:linker-being-built")
+		}
 		labels = append(labels, "killed:"+phaseOf(frac))
 		history = append(history, fmt.Sprintf("kill -9 of the process group at %.0f%% of %.1fs (%s)", frac*100, refDur.Seconds(), phaseOf(frac)))
 	}
@@ -140,10 +144,13 @@ func TestC18(t *testing.T) {
 		c.P = rapid.SampledFrom([]int{1, 4, 16}).Draw(t, "p")
 		n := rapid.IntRange(1, 2).Draw(t, "nkills")
 		for i := 0; i < n; i++ {
-			// stratified over the build: a stratum, then a position inside it
-			stratum := rapid.IntRange(0, 9).Draw(t, "stratum")
-			inside := rapid.IntRange(0, 99).Draw(t, "inside")
-			c.Kills = append(c.Kills, (float64(stratum)+float64(inside)/100)/10*1.05)
+			// uniform over [0, 1.05 T]; when the patched linker has to be built, that step is
+			// most of the build, so half of the kills are aimed at its window
+			frac := float64(rapid.Uint64().Draw(t, "instant")%1050) / 1000
+			if c.Cache != "module-cold" && rapid.Bool().Draw(t, "aim") {
+				frac = 0.35 + float64(rapid.Uint64().Draw(t, "window")%550)/1000
+			}
+			c.Kills = append(c.Kills, frac)
 		}
 		v, labels, alive := c18Run(c)
 		ph := ""
